@@ -14432,7 +14432,12 @@ func parseEvpnExtended(data []byte) (ExtendedCommunityInterface, error) {
 			IsMLDProxy:  flags&uint8(MLD_PROXY) > 0,
 		}, nil
 	}
-	return nil, NewMessageError(BGP_ERROR_UPDATE_MESSAGE_ERROR, BGP_ERROR_SUB_MALFORMED_ATTRIBUTE_LIST, nil, fmt.Sprintf("unknown evpn subtype: %d", subType))
+	// A sub-type without a decoder is carried as it is, like the unknown
+	// sub-types of the other extended community types.
+	return &UnknownExtended{
+		Type:  ExtendedCommunityAttrType(data[0]),
+		Value: data[1:8],
+	}, nil
 }
 
 type TrafficRateExtended struct {
